@@ -785,6 +785,9 @@ func TestReplay(t *testing.T) {
 	h := run.Start(t, "C08")
 	defer h.Finish()
 	if out, _ := execute(h, &tr, nil); out != nil {
+		if out.oracle == "harness" {
+			t.Skipf("harness could not set the case up: %s", out.msg)
+		}
 		h.Fail(t, out.oracle, "C08/"+out.oracle+"/"+out.class, &tr, "%s", out.msg)
 	}
 }
